@@ -121,6 +121,24 @@ def main(argv=None):
     ctx = mp.get_context("fork")
     with ctx.Pool(min(a.jobs, len(jobs))) as pool:
         results = pool.map(_worker, jobs, chunksize=1)
+    # an undecided obligation is re-tried in fresh processes (the solver's running time on one formula varies between processes,
+    # seconds or never): the first attempt without an undecided obligation stands; a refutation is never re-tried away
+    def shaky(r):
+        obs = r.get("obligations", [])
+        return any(o.get("status") == "unknown" and o.get("kind") not in ("undecidable", "cover", "mustfail") for o in obs) and not any(o.get("status") == "refuted" for o in obs)
+
+    for attempt in range(2):
+        again = [i for i, r in enumerate(results) if shaky(r)]
+        if not again:
+            break
+        with ctx.Pool(min(a.jobs, len(again)), maxtasksperchild=1) as pool:
+            redo = pool.map(_worker, [jobs[i] for i in again], chunksize=1)
+        for i, r in zip(again, redo):
+            if not shaky(r) or attempt == 1:
+                r.setdefault("notes", [])
+                if isinstance(r.get("notes"), list):
+                    r["notes"].append("re-run %d time(s) after an undecided obligation" % (attempt + 1))
+                results[i] = r
     return report(prop, tier, seed, results, meta, t0, write=not a.no_evidence and not a.only, verbose=a.v)
 
 
